@@ -301,6 +301,13 @@ func c13FilterError(w *World, r *Recorder) {
 		}
 		c := cubeOf(p.St, nil, nil)
 		c.Origin = trailOf(p)
+		if p.Ret == nil || len(p.Rets) == 0 {
+			// a path that goes round a loop: the filter is not the specified
+			// two-test shape; it takes part in the comparison as its own outcome
+			c.Tag = "loops"
+			got = append(got, c)
+			continue
+		}
 		a := p.Rets[0]
 		switch {
 		case a.Kind == KNil:
